@@ -758,6 +758,10 @@ impl PackageBuilder {
                 let header = payload::stripped_cpio_header(file_index as u32);
                 archive.write_all(&header)?;
                 archive.write_all(&content)?;
+                // file data is padded to a multiple of 4 bytes, as in the regular format
+                if let Some(padding) = payload::pad(content.len()) {
+                    archive.write_all(&padding)?;
+                }
                 archive.flush()?;
             };
 
